@@ -43,6 +43,7 @@ type server struct {
 	onQuit      func(err error)
 	connections sync.Map // key=fd, value=connection
 	closed      int32    // set by Close: the listener is gone
+	accepting   int32    // accepts in flight: their connection is not in connections yet
 }
 
 // Run this server.
@@ -67,6 +68,9 @@ func (s *server) Close(ctx context.Context) error {
 	s.ln.Close()
 
 	for {
+		// an accept in flight is a connection that Range may not see yet;
+		// accepts that start after closed was set give up without a connection
+		accepting := atomic.LoadInt32(&s.accepting)
 		activeConn := 0
 		s.connections.Range(func(key, value interface{}) bool {
 			conn, ok := value.(gracefulExit)
@@ -77,7 +81,7 @@ func (s *server) Close(ctx context.Context) error {
 			}
 			return true
 		})
-		if activeConn == 0 { // all connections have been closed
+		if activeConn == 0 && accepting == 0 { // all connections have been closed
 			return nil
 		}
 
@@ -100,6 +104,12 @@ func (s *server) Close(ctx context.Context) error {
 
 // OnRead implements FDOperator.
 func (s *server) OnRead(p Poll) error {
+	atomic.AddInt32(&s.accepting, 1)
+	defer atomic.AddInt32(&s.accepting, -1)
+	if atomic.LoadInt32(&s.closed) != 0 {
+		// Close has detached and closed the listener; it does not wait for accepts that start now
+		return nil
+	}
 	// accept socket
 	conn, err := s.ln.Accept()
 	if err == nil {
@@ -127,18 +137,23 @@ func (s *server) OnRead(p Poll) error {
 				if retryTimeIndex > 0 {
 					time.Sleep(retryTimes[retryTimeIndex] * time.Millisecond)
 				}
+				atomic.AddInt32(&s.accepting, 1)
 				if atomic.LoadInt32(&s.closed) != 0 {
 					// the server was shut down: its listener fd is closed and the number may belong to others
+					atomic.AddInt32(&s.accepting, -1)
 					return
 				}
 				conn, err := s.ln.Accept()
+				if err == nil && conn != nil {
+					s.onAccept(conn.(Conn))
+				}
+				atomic.AddInt32(&s.accepting, -1)
 				if err == nil {
 					if conn == nil {
 						// recovery accept poll loop
 						s.operator.Control(PollReadable)
 						return
 					}
-					s.onAccept(conn.(Conn))
 					logger.Println("NETPOLL: re-accept conn success:", conn.RemoteAddr())
 					retryTimeIndex = 0
 					continue
